@@ -34,7 +34,7 @@ pub fn def() -> PropDef {
     PropDef {
         id: "C16",
         run,
-        quick_runs: 12_000,
+        quick_runs: 30000,
         thorough_runs: 600_000,
         level: "exploration",
         rule: "a live daemon; index%3: 0 = 1-3 shutdown-caller tasks (each calling once or twice) start after 0..40 scheduler steps while a raw peer follows a drawn plan (idle / k complete requests / stopped after b bytes of a request, b enumerated over every offset of GET_VRING_BASE by index / closed at offset b / closed with a reply pending); after they returned wait() must return Ok, the peer must read EOF and a second start() on the same listener must serve a request; 1 = no shutdown request: the peer disconnects at offset b (enumerated) or with a reply pending or sends a malformed request: wait() must return Err, the peer must read EOF after a request error; 2 = serve(): must return Ok for clean and partial-header disconnects and raise every worker's exit event; always: dropping the daemon ends all worker tasks; forced switches at the daemon-thread and shutdown hold points; hang = the scheduler's deadlock detector; non-trivial = a scheduling choice existed",
